@@ -1687,6 +1687,7 @@ func (k *Kernel) setPHCheckStatus(
 		} else {
 			resp.Status = PHCheckAcceptable
 			resp.ProposerPubKey = proposerPubKey
+			resp.ValidatorSet = vrv.ValidatorSet
 		}
 	}
 
